@@ -48,6 +48,10 @@ Definition c10_rules : list rule :=
       "co_segment_writer_metrics__MetricsSegment_rotateSegment"
       "metricsMEntryWalState.wal.DeleteWAL"
       "rotating ONE segment never removes the meta-entry log, which may hold the entries of other segments";
+    mkRule "C10.restart_replays_datapoint_logs_before_name_logs"
+      "co_github_com_siglens_siglens_cmd_startup__startIngestServer"
+      "metrics.RecoverWALData" "metrics.RecoverMNameWALData"
+      "restart: the datapoint logs are replayed first — flushBlock creates the segment directory that FlushMetricNames of the name-log replay needs";
     mkRule "C10.metric_names_flushed_before_their_log_is_deleted"
       "co_segment_writer_metrics__MetricsSegment_rotateSegment"
       "ms.FlushMetricNames" "ms.mNameWalState.wal.DeleteWAL"
